@@ -29,10 +29,10 @@
 #endif
 
 static const int vals[NVAL][REF_NG] = { VALS };
-static REF_TP_T tps[NVAL];
-static TASK_T dst_task[NVAL];
-static parsec_data_collection_t dcs[NVAL];
-static parsec_dependency_t depword[NVAL];
+static REF_TP_T the_tp, tp_zero;
+static TASK_T the_dst, dst_zero;
+static parsec_data_collection_t the_dc;
+static parsec_dependency_t depword;
 static int n_multi, n_single;
 
 /* number of reference sources of (CID, s, f): enumeration of the OUT side */
@@ -53,11 +53,12 @@ static int ref_sources(const int *g, const int *s, int f)
 static void one(int v)
 {
     const int *g = vals[v];
-    REF_TP_T *tp = &tps[v];
+    REF_TP_T *tp = &the_tp;
+    the_tp = tp_zero; the_dst = dst_zero;
     const parsec_task_class_t *tc = ref_tc[CID];
     const int nf = ref_nflow[CID];
-    vp_dc_init(&dcs[v]);
-    ref_set_globals(tp, g, &dcs[v]);
+    vp_dc_init(&the_dc);
+    ref_set_globals(tp, g, &the_dc);
 
     int s[3] = { 0, 0, 0 }, deg[REF_MAXF], total = 0;
     for (int i = 0; i < NP; i++) s[i] = IN_RANGE(REF_PLO, REF_PHI);
@@ -73,19 +74,26 @@ static void one(int v)
     VASSERTM(total <= MAXDEG, "reference in-degree within the stated bound");
     if (total == 0) return;                 /* startup instance: released by the startup enumeration (O2) */
 
-    TASK_T *t = &dst_task[v];
+    TASK_T *t = &the_dst;
     t->taskpool = (parsec_taskpool_t *)tp;
     t->task_class = tc;
     FILL(&t->locals, g, s);
-    depword[v] = 0;
+    depword = 0;
+    const int use_mask = (tc->flags & PARSEC_USE_DEPS_MASK) != 0;
+    VASSERTM(tc->update_deps == (use_mask ? parsec_update_deps_with_mask : parsec_update_deps_with_counter),
+             "generated task class selects the update_deps function matching its PARSEC_USE_DEPS_MASK flag");
     int rot = IN_RANGE(0, REF_MAXF - 1), delivered = 0, early_ready = 0, last_ready = 0;
     for (int k = 0; k < REF_MAXF; k++) {
         int f = k + rot; if (f >= REF_MAXF) f -= REF_MAXF;
         if (f >= nf) continue;
         for (int r = 0; r < MAXDEG; r++) {
             if (r >= deg[f]) break;
-            int ready = tc->update_deps((parsec_taskpool_t *)tp, (const parsec_task_t *)t, &depword[v],
-                                        (const parsec_task_t *)t, ref_flow[CID][f], ref_flow[CID][f]);
+            /* direct calls of the real functions (the generated table must name the same one) */
+            int ready = use_mask
+                ? parsec_update_deps_with_mask((parsec_taskpool_t *)tp, (const parsec_task_t *)t, &depword,
+                                               (const parsec_task_t *)t, ref_flow[CID][f], ref_flow[CID][f])
+                : parsec_update_deps_with_counter((parsec_taskpool_t *)tp, (const parsec_task_t *)t, &depword,
+                                                  (const parsec_task_t *)t, ref_flow[CID][f], ref_flow[CID][f]);
             delivered++;
             if (delivered < total) { if (ready) early_ready = 1; }
             else last_ready = ready;
